@@ -15,7 +15,7 @@ from ..flow import Flow, conjuncts, emptiness_test_kind
 TREES = "typhon/trees.py"
 FILESET = "typhon/files/fileset.py"
 
-EXPECT = {"C03.pred": 2, "C03.partition": 2, "C03.descent": 12, "C03.early": 2, "C03.rows": 3,
+EXPECT = {"C03.pred": 2, "C03.partition": 2, "C03.descent": 12, "C03.early": 2, "C03.rows": 4,
           "C03.empty": 1, "C03.scan": 6, "C03.match": 14, "C03.extent": 2, "C03.member": 1, "C03.api": 2}
 
 
@@ -219,6 +219,17 @@ class TreeFacts:
         cfn = fns[0]
         ok = col is not None and all(
             cfn(l, r, (l, r)[col]) for l in range(3) for r in range(l, 3))
+        if ok:
+            # the row index must address an existing row for every row count n >= 1
+            from ..ratinterp import Rat
+            from fractions import Fraction
+            try:
+                for nrows in range(1, 7):
+                    idx = Rat({"%s.shape[0]" % p2: Fraction(nrows), "len(%s)" % p2: Fraction(nrows)}).ev(sub.slice.elts[0])
+                    if not (idx.denominator == 1 and -nrows <= idx < nrows):
+                        ok = False
+            except AnalysisError:
+                raise AnalysisError("_get_center: row index %s outside the index model" % norm(sub.slice.elts[0]))
         ctx.ob("IntervalTree._get_center", ok, "centre point = %s" % norm(sub),
                "an end point (column 0 or 1) of one of the rows, and that row satisfies the centre mask "
                "(non-empty centre bin: the recursion terminates)", node=sub, func=f)
@@ -447,21 +458,15 @@ class TreeFacts:
         return False
 
     def extent_attrs(self):
-        """(attribute holding the global minimum, attribute holding the global maximum)."""
-        lo = hi = None
-        P = self.f_init.params[1]
-        for st in walk_no_nested(self.f_init.node):
-            if isinstance(st, ast.Assign) and len(st.targets) == 1 and isinstance(st.targets[0], ast.Attribute) \
-                    and dotted(st.targets[0]) and dotted(st.targets[0]).startswith("self."):
-                k = _minmax_of(st.value, P)
-                if k == "min":
-                    lo = st.targets[0].attr
-                elif k == "max":
-                    hi = st.targets[0].attr
-        if lo is None or hi is None:
-            # fall back on the names used by the pinned source; C03.extent reports the defect
-            return (lo or "left", hi or "right")
-        return lo, hi
+        """(attribute used as lower extent, attribute used as upper extent): the roles are read from
+        the point-query guard `interval_contains((self.<lo>, self.<hi>), point)`."""
+        g = self.ctx.func(TREES, "IntervalTree._query_point")
+        for c in calls_in(g.node, "interval_contains"):
+            a = c.args[0] if c.args else None
+            if isinstance(a, ast.Tuple) and len(a.elts) == 2 and all(
+                    isinstance(e, ast.Attribute) and isinstance(e.value, ast.Name) and e.value.id == "self" for e in a.elts):
+                return a.elts[0].attr, a.elts[1].attr
+        raise AnalysisError("_query_point: guard interval_contains((self.lo, self.hi), point) not found")
 
     # -- C03.extent ------------------------------------------------------------------
     def rule_extent(self):
@@ -480,20 +485,25 @@ class TreeFacts:
                         and isinstance(parent(n), ast.Call) and parent(n).func is not n and n.attr not in ("root", "size"):
                     used.add(n.attr)
         flow = Flow(f)
-        for attr in sorted(used):
+        lo, hi = self.extent_attrs()
+        want = {lo: "min", hi: "max"}
+        for attr in sorted(set(used) | {lo, hi}):
             val = None
             for st in flow.stmts:
                 if isinstance(st, ast.Assign) and len(st.targets) == 1 and dotted(st.targets[0]) == "self." + attr:
                     val = (st, flow.resolve(st.value, at=st))
             if val is None:
+                if attr in want:
+                    ctx.ob("IntervalTree.__init__[self.%s]" % attr, False, "self.%s is never assigned in __init__" % attr, "global %s" % want[attr], node=f.node, func=f)
                 continue
             st, v = val
             k = _minmax_of(v, P) or _sorted_corner(v)
             if k is None:
                 raise AnalysisError("extent attribute self.%s = %s is outside the recognised forms" % (attr, norm(st.value)))
-            ctx.ob("IntervalTree.__init__[self.%s]" % attr, k in ("min", "max"),
-                   "self.%s = %s" % (attr, norm(st.value)),
-                   "np.min / np.max over the whole interval array (all end points, any row order)",
+            ctx.ob("IntervalTree.__init__[self.%s]" % attr, k == want.get(attr, k) and k in ("min", "max"),
+                   "self.%s = %s%s" % (attr, norm(st.value), "" if k in ("min", "max") else "  [%s]" % k),
+                   "the global %s over all end points (used as the %s extent by the early returns)" % (
+                       {"min": "minimum", "max": "maximum"}.get(want.get(attr), "min/max"), "lower" if want.get(attr) == "min" else "upper"),
                    node=st, func=f)
 
     # -- C03.rows --------------------------------------------------------------------
@@ -513,6 +523,12 @@ class TreeFacts:
                "_build_tree(%s)" % norm(call.args[0]) + ("" if kind == "rows" else "  [%s]" % why),
                "row indexing / row permutation of the indexed array only (no column-wise np.sort)",
                node=call, func=f)
+        # list input is converted before .shape / indexing is used
+        conv = [st for st in f.body if (isinstance(st, ast.If) and norm(st.test) == "not isinstance(%s, np.ndarray)" % P and len(st.body) == 1
+                                        and norm(st.body[0]) == "%s = np.asarray(%s)" % (P, P))
+                or (isinstance(st, ast.Assign) and norm(st) in ("%s = np.asarray(%s)" % (P, P), "%s = np.array(%s)" % (P, P)))]
+        ctx.ob("IntervalTree.__init__.input", bool(conv), "%s" % ([norm(c)[:70] for c in conv] or "no conversion"),
+               "anything that is not an ndarray (lists of pairs, as FileSet passes them) is converted with np.asarray first", node=conv[0] if conv else f.node, func=f)
         # no in-place sort of any array in __init__
         bad = [c for c in calls_in(f.node) if isinstance(c.func, ast.Attribute) and c.func.attr == "sort"
                and dotted(c.func.value) not in ("np", "numpy")]
@@ -776,6 +792,14 @@ def rule_match(ctx):
         de = _all_forms(flow, c.args[1], c, {p_end: "E", p_mi: "M"})
         ok = {"S": 1} in ds and {"S": 1, "M": -1} in ds and len(ds) == 2 \
             and {"E": 1} in de and {"E": 1, "M": 1} in de and len(de) == 2
+        # the widened definitions lie under `max_interval is not None`
+        for nm in (c.args[0], c.args[1]):
+            if isinstance(nm, ast.Name):
+                for d_ in flow.defs(nm.id, c):
+                    if isinstance(d_, ast.Assign):
+                        g_ = parent(d_)
+                        if not (isinstance(g_, ast.If) and norm(g_.test) == "%s is not None" % p_mi and d_ in g_.body):
+                            ok = False
         ctx.ob("FileSet.match.period[%s]" % who, ok, "find(%s, %s)" % (ds, de),
                "find(start - max_interval, end + max_interval) when max_interval is given, else find(start, end)",
                node=c, func=f)
@@ -810,7 +834,7 @@ def rule_match(ctx):
             p = parent(a)
             if isinstance(p, ast.If):
                 widened_under = norm(p.test)
-        ctx.ob("FileSet.match.widen.guard", widened_under is not None and p_mi in widened_under,
+        ctx.ob("FileSet.match.widen.guard", widened_under is not None and widened_under == "%s is not None" % p_mi,
                "widening guarded by: %s" % widened_under, "max_interval is not None", node=shifts[0][3], func=f)
 
     # tree built from the secondaries, queried with the primaries
